@@ -165,14 +165,18 @@ let spec input obs =
           | Some Config.BadLogLevel -> "FAIL invalid-logging-accepted got " ^ obs
           | _ -> "FAIL ill-typed-value-accepted got " ^ obs)
      | Some cfg ->
-       if obs = "LOAD-ERROR" then
-         (if Stdlib.List.exists (fun (_, v) -> v = String.EmptyString) env
-          then "FAIL load-refused-valid-sources a blank variable must never make Load fail"
-          else "FAIL load-refused-valid-sources") else
+       if obs = "LOAD-ERROR" then begin
+         let blank = Stdlib.List.exists (fun (_, v) -> v = String.EmptyString) env in
+         let env_nb = Stdlib.List.filter (fun (_, v) -> v <> String.EmptyString) env in
+         (* the blank variable of a string key ignored (the known finding) and what is left is refused for a
+            reason of its own: not a refusal of valid sources *)
+         if blank && Config.load_files_spec tbl env_nb sel dflt = None then "FAIL env-empty-ignored the blank variable is skipped and the remaining sources are refused"
+         else if blank then "FAIL load-refused-valid-sources a blank variable must never make Load fail"
+         else "FAIL load-refused-valid-sources" end else
        let got = assoc_of_obs obs in
        let bad = ref None in
        Stdlib.List.iter (fun (k, v) ->
-           if (match !bad with None -> true | Some (c, _) -> c = "env-empty-ignored") then begin
+           if (match !bad with None -> true | Some (c, _) -> c = "env-empty-ignored" || c = "section-env-shadows-file") then begin
              let k = string_of_cs k and v = string_of_cs v in
              let g = try Some (Stdlib.List.assoc k got) with Not_found -> None in
              if g <> Some v then begin
@@ -187,9 +191,15 @@ let spec input obs =
                  | Some _ -> "env-not-effective"
                  | None ->
                    (match Config.lookup file (cs_of_string k) with
-                    | Some _ -> "file-not-effective"
+                    | Some _ ->
+                      (* the file's entry lost although the key's own variable is unset: because a non-empty
+                         variable is named like a section above the key (known finding), or otherwise *)
+                      let dflt_k = match table_entry k with Some ((_, _), d) -> Some (string_of_cs d) | None -> None in
+                      if Config.shadowed env (cs_of_string k) && g = dflt_k && g <> None
+                      then "section-env-shadows-file" else "file-not-effective"
                     | None -> "default-not-kept") in
-               if !bad = None || cls <> "env-empty-ignored" then
+               let weak c = (c = "env-empty-ignored" || c = "section-env-shadows-file") in
+               if !bad = None || not (weak cls) then
                  bad := Some (cls, Printf.sprintf "FAIL %s key=%s want=%s got=%s" cls k v
                                 (match g with Some x -> x | None -> "<absent>"))
              end
